@@ -104,7 +104,7 @@ def simp(t, full=False):
         return t
     if full:
         t = z3.simplify(t)
-    if t.num_args() == 0:
+    if z3.is_app(t) and t.num_args() == 0:
         r = _num(t)
         if r is not None:
             return r
